@@ -65,7 +65,10 @@ ExtraShapes == <<
   [n |-> 3, edges |-> <<<<1, 2>>, <<2, 2>>, <<2, 3>>>>, orig |-> <<"ideal", NoneK, NoneK>>, dest |-> <<NoneK, NoneK, "free">>],
   [n |-> 5, edges |-> <<<<1, 4>>, <<2, 4>>, <<3, 4>>, <<4, 5>>>>, orig |-> <<"mainstream", "ramp_in", "simp_unlimited", "ramp_out", NoneK>>, dest |-> <<NoneK, NoneK, NoneK, NoneK, "free">>],
   [n |-> 5, edges |-> <<<<1, 2>>, <<2, 3>>, <<2, 4>>, <<2, 5>>>>, orig |-> <<"mainstream", NoneK, NoneK, NoneK, NoneK>>, dest |-> <<NoneK, NoneK, "free", "congested", "free">>],
-  [n |-> 6, edges |-> <<<<1, 3>>, <<2, 3>>, <<3, 4>>, <<4, 5>>, <<4, 6>>, <<5, 3>>>>, orig |-> <<"ideal", "mainstream", NoneK, NoneK, "ramp_in", NoneK>>, dest |-> <<NoneK, NoneK, NoneK, NoneK, NoneK, "congested">>]
+  [n |-> 6, edges |-> <<<<1, 3>>, <<2, 3>>, <<3, 4>>, <<4, 5>>, <<4, 6>>, <<5, 3>>>>, orig |-> <<"ideal", "mainstream", NoneK, NoneK, "ramp_in", NoneK>>, dest |-> <<NoneK, NoneK, NoneK, NoneK, NoneK, "congested">>],
+  \* two mainstream origins and a ramp at their merge; two ramps and a simplified ramp on a chain (same-named controls of different element types)
+  [n |-> 4, edges |-> <<<<1, 3>>, <<2, 3>>, <<3, 4>>>>, orig |-> <<"mainstream", "mainstream", "ramp_out", NoneK>>, dest |-> <<NoneK, NoneK, NoneK, "congested">>],
+  [n |-> 5, edges |-> <<<<1, 2>>, <<2, 3>>, <<3, 4>>, <<4, 5>>>>, orig |-> <<"ramp_out", "simp_limited", "ramp_in", "ramp_out", NoneK>>, dest |-> <<NoneK, NoneK, NoneK, NoneK, "congested">>]
   >>
 
 -----------------------------------------------------------------------------
